@@ -10,6 +10,9 @@
 //!         3 target writes then closes the connection; local reads to EOF
 //!         4 local writes then closes the connection; target reads to EOF
 //!         5 the target port refuses connections; the local connection must get closed
+//!         6 target answers and half-closes, then (after the local client has seen EOF) closes completely while
+//!           the local client keeps uploading: the upload must fail (l_end 1) instead of going on for ever (0);
+//!           the target reports only that what it received is a prefix of the upload (t_len 0, t_end 0)
 //!   every local connection first sends a 4-byte tag (part of the payload) naming its target script
 //!   result per connection: l_len l_ok l_end t_len t_ok t_end
 //!     (len = bytes received, ok = they are exactly the peer's byte stream so far, end: 1 clean EOF,
@@ -26,7 +29,7 @@ use std::net::SocketAddr;
 use std::path::PathBuf;
 use std::str::FromStr;
 use std::sync::{Arc, Mutex};
-use std::time::Duration;
+use std::time::{Duration, Instant};
 use tokio::io::{AsyncRead, AsyncReadExt, AsyncWrite, AsyncWriteExt};
 use tokio::net::{TcpListener, TcpStream, UdpSocket, UnixStream};
 
@@ -79,23 +82,29 @@ async fn read_all<R: AsyncRead + Unpin>(r: &mut R, expect: &[u8]) -> Obs {
 }
 
 async fn write_chunks<W: AsyncWrite + Unpin>(w: &mut W, data: &[u8], chunks: &[usize]) -> bool {
-    let mut off = 0;
-    for (i, &c) in chunks.iter().enumerate() {
-        if c == 0 {
-            // a zero-length write
-            if w.write(&[]).await.is_err() {
+    // a write that does not complete within the timeout counts as failed (the peer has stopped
+    // reading: on a direct connection that only happens when it is gone)
+    let r = tokio::time::timeout(TMO, async {
+        let mut off = 0;
+        for (i, &c) in chunks.iter().enumerate() {
+            if c == 0 {
+                // a zero-length write
+                if w.write(&[]).await.is_err() {
+                    return false;
+                }
+            } else if w.write_all(&data[off..off + c]).await.is_err() {
                 return false;
             }
-        } else if w.write_all(&data[off..off + c]).await.is_err() {
-            return false;
+            off += c;
+            if i % 3 == 2 {
+                let _ = w.flush().await;
+                tokio::task::yield_now().await;
+            }
         }
-        off += c;
-        if i % 3 == 2 {
-            let _ = w.flush().await;
-            tokio::task::yield_now().await;
-        }
-    }
-    true
+        true
+    })
+    .await;
+    r.unwrap_or(false)
 }
 
 async fn target_conn(mut s: TcpStream, scripts: Scripts, obs: ObsMap) {
@@ -132,6 +141,26 @@ async fn target_conn(mut s: TcpStream, scripts: Scripts, obs: ObsMap) {
         3 => {
             write_chunks(&mut w, &data, &sc.t_chunks).await;
             Obs { len: 0, ok: 1, end: 0 }
+        }
+        6 => {
+            write_chunks(&mut w, &data, &sc.t_chunks).await;
+            let _ = w.shutdown().await;
+            // keep reading the upload for a while, then close completely (with the upload still coming)
+            let mut got = 0usize;
+            let mut ok = 1u64;
+            let mut buf = vec![0u8; 16384];
+            let until = tokio::time::Instant::now() + Duration::from_millis(400);
+            while let Ok(Ok(n)) = tokio::time::timeout_at(until, r.read(&mut buf)).await {
+                if n == 0 {
+                    break;
+                }
+                if got + n > expect.len() || buf[..n] != expect[got..got + n] {
+                    ok = 0;
+                }
+                got += n;
+            }
+            obs.lock().unwrap().insert(tag, Obs { len: 0, ok, end: 0 });
+            return;
         }
         _ => read_all(&mut r, &expect).await,
     };
@@ -329,7 +358,7 @@ impl World {
     }
 
     async fn tcp_conn(&self, entry: u64, variant: u64, tag: u32, shape: u64, l_chunks: Vec<usize>, t_chunks: Vec<usize>) -> Vec<u64> {
-        let total_l: usize = l_chunks.iter().sum();
+        let total_l: usize = if shape == 6 { 1 << 21 } else { l_chunks.iter().sum() };
         let total_t: usize = t_chunks.iter().sum();
         self.scripts.lock().unwrap().insert(tag, TScript { shape, total_local: total_l, t_chunks: t_chunks.clone() });
         let Some(s) = tokio::time::timeout(TMO, self.open(entry, variant, shape == 5)).await.ok().flatten() else {
@@ -374,6 +403,27 @@ impl World {
                 write_chunks(&mut w, &data, &l_chunks).await;
                 let _ = w.flush().await;
                 Obs { len: 0, ok: 1, end: 0 }
+            }
+            6 => {
+                let _ = w.write_all(&tagb).await;
+                let _ = w.flush().await;
+                // upload slowly and for ever; meanwhile read the answer to its end
+                let up = async {
+                    let mut off = 0usize;
+                    let t0 = Instant::now();
+                    while t0.elapsed() < Duration::from_secs(5) && off + 1024 <= data.len() {
+                        match tokio::time::timeout(Duration::from_secs(2), w.write_all(&data[off..off + 1024])).await {
+                            Ok(Ok(())) => {}
+                            Ok(Err(_)) => return 1u64, // the upload failed: the connection is known to be closed
+                            Err(_) => return 0,        // the upload is stuck: left hanging
+                        }
+                        off += 1024;
+                        tokio::time::sleep(Duration::from_millis(5)).await;
+                    }
+                    0
+                };
+                let (closed, o) = tokio::join!(up, read_all(&mut r, &expect));
+                Obs { len: o.len, ok: o.ok, end: if o.end == 1 { closed } else { 9 } }
             }
             _ => {
                 let o = read_all(&mut r, &[]).await;
@@ -596,7 +646,7 @@ pub fn generate(a: &Args, out: &mut Out) {
     // one case per (entry, shape) first
     if !a.mode.contains("random-only") {
         for (entry, variant) in [(0u64, 0u64), (1, 0), (2, 0), (2, 1), (3, 0), (4, 0), (5, 0)] {
-            for shape in 0..6u64 {
+            for shape in 0..7u64 {
                 if shape == 5 && entry == 1 {
                     continue;
                 }
@@ -616,7 +666,7 @@ pub fn generate(a: &Args, out: &mut Out) {
             let nconn = if rng.chance(1, 3) { 2 + rng.below(4) } else { 1 };
             let mut c = vec![1, 1, entry, variant, nconn];
             for _ in 0..nconn {
-                let mut shape = rng.pick(&[0u64, 0, 1, 1, 2, 2, 2, 3, 4, 5]);
+                let mut shape = rng.pick(&[0u64, 0, 1, 1, 2, 2, 2, 3, 4, 5, 6]);
                 if shape == 5 && entry == 1 {
                     shape = 2;
                 }
